@@ -428,6 +428,24 @@ fn episode(k: usize, kind: u64, rng: &mut Rng, g: &mut BinGen) -> (Vec<String>, 
             st.push(format!("r{k} = {y}"));
             exp = yb;
         }
+        32 => {
+            // binaries through a loopback TCP connection: written by one process, read, doubled and
+            // written back by another (effect requests and completions carrying heap binaries in both
+            // directions, across workers)
+            let (x, xb) = g.heap(rng);
+            let (l, lb) = g.lit(rng);
+            let port = 9100 + k;
+            st.push(format!("l{k} = [{port}, 4] __tcp_listen__"));
+            st.push(format!("e{k} = @{{ s = [0x7f000001, {port}] __tcp_connect__, d = [s, 64] __tcp_socket_read__, n = [s, [d, d] __binary_concat__] __tcp_socket_write__, s __tcp_socket_close__, 0x00 }}"));
+            st.push(format!("c{k} = l{k} __tcp_listener_accept__"));
+            st.push(format!("a{k} = {x}"));
+            st.push(format!("n{k} = [c{k}, a{k}] __tcp_socket_write__"));
+            st.push(format!("d{k} = [c{k}, 256] __tcp_socket_read__"));
+            st.push(format!("c{k} __tcp_socket_close__"));
+            st.push(format!("l{k} __tcp_listener_close__"));
+            st.push(format!("r{k} = [d{k}, {l}] __binary_concat__"));
+            exp = cat(&cat(&xb, &xb), &lb);
+        }
         _ => {
             // two filter sources: a message for the higher-priority one can arrive while the
             // lower-priority filter is in flight
@@ -446,7 +464,7 @@ fn episode(k: usize, kind: u64, rng: &mut Rng, g: &mut BinGen) -> (Vec<String>, 
     (st, exp)
 }
 
-pub const NKINDS: u64 = 32;
+pub const NKINDS: u64 = 33;
 
 impl Property for C06 {
     fn id(&self) -> &'static str {
